@@ -36,7 +36,7 @@ def fl(res):
 def parse_a(tok):
     d, _, e = tok[1:].partition(":")
     sh = [int(x) for x in d.split("x")]
-    return sh, [int(x) for x in e.split(",")]
+    return sh, [int(x) for x in e.split(",") if x]
 
 
 def mat(sh, es):
@@ -93,17 +93,12 @@ def agree(case, impl, model):
                 if abs(res) > bound * 64:
                     return False
         return True
-    if head == "det":
+    if head in ("det", "detstack"):
+        # the implementation answers with one determinant per matrix (a matrix: one; a stack: one per block, in stack
+        # order; a vector: itself); refusals are compared as error values
         s1, e1 = parse_a(t[1])
-        m = re.match(r"^list\(l\((.*)\);l\((.*)\)\)$", model)
-        r = fl(impl)
-        if not m or r is None:
-            return False
-        d = F(int(m.group(1)), int(m.group(2)))
-        return r[0] == [1] and close(r[1][0], d, abs(d))
-    if head == "detstack":
-        # the implementation answers with one determinant per matrix of the stack, in stack order
-        s1, e1 = parse_a(t[1])
+        if model.startswith("err(") or impl.startswith("err("):
+            return vlib.canon(impl) == vlib.canon(model)
         m = re.match(r"^list\(l\((.*)\);l\((.*)\)\)$", model)
         r = fl(impl)
         if not m or r is None:
@@ -112,6 +107,8 @@ def agree(case, impl, model):
         dens = [int(x) for x in m.group(2).split(",")] if m.group(2) else []
         if len(r[1]) != len(nums):          # (the library answers with a flat array of the determinants; the property
             return False                    #  speaks of the values, one per matrix, not of the result's shape)
+        if len(s1) == 2 and r[0] != [1]:
+            return False
         return all(close(v, F(a, b), abs(F(a, b))) for v, a, b in zip(r[1], nums, dens))
     if head == "qr":
         s1, e1 = parse_a(t[1])
@@ -265,6 +262,10 @@ def gen(seed, tier):
     for sh in ([2, 2], [3, 3], [2, 3], [4, 1], [1, 4], [2, 2, 2], [3, 4, 4], [2, 3, 3], [1, 1, 1], [2, 3, 3, 3], [2, 1, 2, 2], [5, 2, 2]):
         for _ in range(2):
             out.append(f"norm {arr(sh, [rng.randint(-9, 9) for _ in range(prod(sh))])} n")
+    # det's entry checks: vectors, non-square and too small matrices, stacks that do not end in a square shape, empty stacks
+    for sh in ([3], [0], [1], [2, 3], [3, 2], [1, 2], [2, 1], [1, 1], [0, 0], [2, 2, 3], [2, 3, 2], [2, 1, 1], [3, 1, 2], [0, 2, 2],
+               [2, 0, 2, 2], [1, 2, 2], [1, 1, 3, 3], [2, 3, 1], [2, 2, 0], [4, 4], [1, 4, 4]):
+        out.append(f"det {arr(sh, [rng.randint(-5, 5) for _ in range(prod(sh))])}")
     # det / qr of stacks of every rank: one determinant per matrix in stack order (seeded change C15k:
     # the stack was split into shape[0] pieces, right only for rank 3)
     for sh in ([1, 2, 2], [2, 2, 2], [3, 3, 3], [4, 2, 2], [2, 5, 5], [3, 1, 2, 2], [1, 3, 2, 2], [2, 3, 3, 3], [3, 2, 2, 2], [2, 2, 4, 4],
